@@ -227,7 +227,38 @@ pub fn sim_case(ctx: &mut Ctx, case: u64, cfg: GenCfg) {
         return;
     }
     for s in 0..2 {
-        let d = random_sdesc(&mut rng, &r, &SettingsOpts::default());
+        let mut d = random_sdesc(&mut rng, &r, &SettingsOpts::default());
+        if s == 1 {
+            // substitution rules that spell out the source's generics, also on sources with skipped
+            // parameters (C07 does not judge those: which argument "corresponds" is ambiguous there;
+            // closure of the output is judged here all the same). The target mentions no source
+            // parameter or only the first declared one, so the rule is closed under either reading.
+            use rand::seq::SliceRandom;
+            use rand::Rng;
+            let mut cands: Vec<(String, usize, bool)> = r
+                .types
+                .iter()
+                .filter(|t| reg::is_generated(&t.ty) && t.ty.path.segments[0] != "bitvec" && !t.ty.type_params.is_empty())
+                .map(|t| (t.ty.path.segments.join("::"), t.ty.type_params.len(), t.ty.type_params.iter().any(|p| p.ty.is_none())))
+                .collect();
+            cands.sort();
+            cands.dedup();
+            // prefer sources with skipped parameters
+            let with_skipped: Vec<_> = cands.iter().filter(|c| c.2).cloned().collect();
+            let pool = if !with_skipped.is_empty() && rng.gen_bool(0.7) { &with_skipped } else { &cands };
+            if let Some((path, arity, skipped)) = pool.choose(&mut rng).cloned() {
+                if !d.substitutes.iter().any(|(f, _)| f.split('<').next() == Some(path.as_str())) {
+                    let names: Vec<String> = (0..arity).map(|i| format!("P{i}")).collect();
+                    let first_has_arg = r.types.iter().filter(|t| t.ty.path.segments.join("::") == path).all(|t| t.ty.type_params[0].ty.is_some());
+                    let to = if first_has_arg && rng.gen_bool(0.5) { format!("::ext::declared::S<{}>", names[0]) } else { "::ext::declared::S".to_string() };
+                    d.substitutes.push((format!("{path}<{}>", names.join(", ")), to));
+                    ctx.count("rules_with_declared_generics", 1);
+                    if skipped {
+                        ctx.count("rules_with_declared_generics_on_skipped_param_sources", 1);
+                    }
+                }
+            }
+        }
         ctx.begin_case(&format!("sim case {case} settings {s}"));
         let src = prog.render_source("TypeInfo");
         let regj = reg::to_json(&r);
